@@ -14,26 +14,13 @@ that a changed constant or comparison operator breaks a named theorem.
 namespace C05
 open Model
 
-private theorem oversized_int (len mp : Int) (h0 : 0 ≤ mp) (h : mp ≤ 255) :
-    Gen.SessionStatic.Session.handle_rx.oversized len mp = some (decide (len > mp + 5)) := by
-  simp (disch := omega) only [Gen.SessionStatic.Session.handle_rx.oversized, Gen.SessionStatic.MHDR_LEN,
-    Gen.SessionStatic.MIC_LEN, Rt.ck_usize, Option.bind_eq_bind, Option.bind_some, Option.pure_def, Option.some.injEq]
-  rw [Bool.eq_iff_iff]; simp only [decide_eq_true_eq]; omega
-
-/-- oversized frames (`handle_rx`): `payload_len > max_payload_len as usize + MHDR_LEN + MIC_LEN`
-is the model's `len > maxPayload + 5`, for every length and every `u8` limit -/
-theorem tieA_oversized (len maxPayload : Nat) (h : maxPayload ≤ 255) :
-    Gen.SessionStatic.Session.handle_rx.oversized len maxPayload = some (decide (len > maxPayload + 5)) := by
-  rw [oversized_int _ _ (by omega) (by omega), Option.some.injEq, Bool.eq_iff_iff]
-  simp only [decide_eq_true_eq]; omega
-
-example : Gen.SessionStatic.Session.handle_rx.oversized 65 59 = some true ∧
-    Gen.SessionStatic.Session.handle_rx.oversized 64 59 = some false := by decide
+/-! (builder N) The former `tieA_oversized` — the oversize comparison extracted as a function of its operands —
+is superseded by `tieA_handle_rx_accept` below, which ties the whole method (a changed constant or
+comparison operator breaks it, a re-spelt comparison does not). -/
 
 /-- the freshness window is the one constant of the source both generated units read -/
 theorem tieA_maxFcntGap : Gen.SessionStatic.MAX_FCNT_GAP = Gen.Session.MAX_FCNT_GAP := rfl
 
-#print axioms tieA_oversized
 #print axioms tieA_maxFcntGap
 /-- builder N — the WHOLE acceptance test: the state-passing translation of the current source of
 `Session::handle_rx` (`Gen/SessionRx.lean`, with `Session::rx2_complete`, `next_fcnt_down` and the `Uplink`
